@@ -70,6 +70,17 @@ CHECKS = {
         "degrees for ball+spherical); tolerance 1e-9 rad (5e-8 near the antipode).",
         "DESIGN.md section 6, C11",
     ),
+    "C12": (
+        "property-based testing (Hypothesis): brute-force nearest-source oracle + extracted IDW weight matrix (convexity, support, monotonicity, linearity)",
+        "Exploration: generated source/destination grid pairs (incl. Voronoi sources whose face centres are supplied and differ from the corner "
+        "mean, and solids where n_node == n_face / n_edge) x data on nodes, edges or faces with 0-2 leading dims x three destinations x both "
+        "coordinate types. Nearest-neighbour results are compared with the brute-force great-circle nearest source element of the data's own "
+        "kind (ties skipped), identity onto the source's own elements; for IDW the whole weight matrix is extracted by remapping an identity "
+        "field and must be non-negative, sum to one, vanish outside the brute-force k nearest and not increase with distance, every other "
+        "field must equal data @ weights and constants must be reproduced; dims/name/destination grid of every result.",
+        "Trusted: vlib/sphere.py distances; element positions recomputed from the mesh in the grid's own numbering; IDW distance unit not asserted.",
+        "DESIGN.md section 6, C12",
+    ),
     "C13": (
         "property-based testing (Hypothesis): independent enclosure/tightness oracle (sampling + analytic apex + shortest longitude cover) over constructed convex faces",
         "Exploration: strictly convex faces with 3-8 corners built by construction anywhere on the sphere (four size classes up to 88 degrees "
